@@ -98,7 +98,8 @@ fn ev_eq(a: &SliderEvent, b: &SliderEvent) -> bool {
 }
 
 fn close(a: f64, b: f64, scale: f64) -> bool {
-    a == b || (a - b).abs() <= 1e-9 * scale.max(1.0)
+    // overflowing parameters make both the closed form and the stream NaN
+    a == b || (a.is_nan() && b.is_nan()) || (a - b).abs() <= 1e-9 * scale.max(1.0)
 }
 
 /// The property's domain: span count >= 1, finite parameters, playable signs.
